@@ -273,8 +273,24 @@ def run_C05(ctx):
     ctx['cov']['exhaustive_histories'] = {'alphabet': small_alphabet(), 'max_len': d}
     api_correspondence(ctx, ['structure', 'hooks'], s, n, proj_full, None, 'C05 ordered-tree behaviour')
 
+def c06_typed_grid(impl, rng, stats):
+    """failing typed lookups must leave the output untouched: stored type x requested type x auto-convert x by-path/by-name"""
+    H = hexs
+    kinds = ['int', 'int64', 'float', 'bool', 'string']
+    for auto in (0, 1):
+        impl.do('init'); impl.do('set_option 1 %d' % auto)
+        impl.do('read_string ' + H(b'i = 5; big = 5000000000; l = 7L; f = 2.5; huge = 1e300; s = "x"; b = true; g = { i = 1; }; a = [1, 2]; e = ( 1L, 2.5, "s" );'))
+        paths = [b'i', b'big', b'l', b'f', b'huge', b's', b'b', b'g', b'a', b'g.i', b'a.[1]', b'e.[0]', b'e.[1]', b'e.[2]', b'nope', b'g.nope', b'a.[2]', b'i.x', b'e.[0].y']
+        for path in paths:
+            for k in kinds:
+                impl.do('clookup_val %s %s' % (k, H(path)))
+                if b'.' not in path:
+                    impl.do('lookup_val %s / %s' % (k, H(path)))
+                stats['c06:typed:%s' % k] = stats.get('c06:typed:%s' % k, 0) + 1
+
 def run_C06(ctx):
     s, n = sizes(ctx, (6, 200), (40, 500))
+    correspondence(ctx, [c06_typed_grid], proj_lookup, oracle_lookup, 'C06 path lookup', 'typed-grid')
     api_correspondence(ctx, ['lookup'], s, n, proj_lookup, oracle_lookup, 'C06 path lookup')
 
 def c07_grid(impl, rng, stats):
@@ -393,6 +409,13 @@ def run_C09(ctx):
                        'C09 error information', 'histories<=%d' % L)
     ctx['cov']['exhaustive'] = True
     ctx['cov']['exhaustive_histories'] = {'events': [e[0] for e in events], 'max_len': L, 'sequences': len(seqs)}
+    # the parser's other failure exit (stack exhaustion, yyparse returns 2): before and after every other event
+    deep = ('exhausted-string', [], 'read_string ' + hexs(b'a = ' + b'(' * 10001), '2 %s - 1' % b'memory exhausted'.hex())
+    ev2 = events + [deep]
+    d = len(ev2) - 1
+    seqs2 = [(d,), (1, d), (d, 1), (d, 9)]      # alone, after a syntax error, before a syntax error, before a missing file
+    e = {}
+    correspondence(ctx, [streams.sess_c09(seqs2, ev2, e)], proj_err, streams.oracle_c09(e), 'C09 error information', 'stack-exhaustion')
 
 def run_C12(ctx):
     rng = Rng(ctx['seed'] * 15485863 + 12)
